@@ -464,9 +464,27 @@ type info struct {
 	d, calls, bound int
 	parallel        bool
 	skip            string
+	timedOut        bool
 }
 
+// check evaluates the case; an evaluation that ends in the time-out of the multiUse
+// distributor (a wall-clock limit inside the dependency: a consumer did not take an item
+// for five seconds, seen only on a heavily loaded machine) says nothing about demand and
+// is repeated; only a time-out in three evaluations in a row is reported.
 func check(c Case) (string, info) {
+	var msg string
+	var inf info
+	for attempt := 0; attempt < 3; attempt++ {
+		msg, inf = checkOnce(c)
+		if !inf.timedOut {
+			return msg, inf
+		}
+		evid.R.Class("multiUse_distributor_timed_out_evaluation_repeated")
+	}
+	return msg, inf
+}
+
+func checkOnce(c Case) (string, info) {
 	var inf info
 	impl, state := newImpl()
 	tops := 0
@@ -615,6 +633,7 @@ func check(c Case) (string, info) {
 			inf.skip = "F27"
 			return "", inf
 		}
+		inf.timedOut = strings.Contains(got.Err.Error(), "iterator timed out")
 		return fmt.Sprintf("%s fails (%v), the decisive prefix evaluates to %s; the error of an element behind the decisive one must not be reported", where, got.Err, ref.Show(want)), inf
 	}
 	if !ref.Same(want, got.Val, 0) {
